@@ -50,7 +50,7 @@ CARRIER_OF = {"real": "ereal", "log": "ereal", "viterbi": "trop", "bool": "bool"
 SEMIRINGS = ["real", "log", "viterbi", "bool"]
 
 ASSUMPTIONS = [
-    "the law records sr_ring / sr_ordered / sr_star of the three carriers (ereal, trop, bool) are premises of the generic C09 theorems; they are proved by C08 (Proofs/SemiringLaws.v)",
+    "the law records sr_ring / sr_ordered / sr_star are premises of the GENERIC C09 theorems only; for the three carriers (ereal, trop, bool) they are proved by C08 (Proofs/SemiringLaws.v) and discharged in Proofs/Instances_solve.v: C09_solve_model_least_{bool,real,viterbi}, C09_oracle_sound_{bool,real,viterbi}, ... carry no law premise",
     "floats: Real outputs are compared with the exact model within 1e-9 relative + 1e-12 absolute; Log inputs are log(v) of the exact grid value and exp(output) is compared likewise (math.log / math.exp are trusted); Viterbi and Bool are exact",
     "torch.linalg.solve is an oracle argument of real_solve_model ('returns the unique solution of (I-A)x=b or fails'); its observed answer is recorded by wrapping it and fed to the model",
     "reshape/flatten of blocks is modelled as the identity on row-major data; the harness enumerates entries by explicit indexing",
@@ -678,7 +678,6 @@ def run(tier, seed):
 OPEN_ITEMS = [
     "refinement multi_solve_model (list-of-blocks LU + back-substitution with presence tests, a[x,z]a[z,z]* computed by a transposed solve) -> block elimination belim of C09_block_elimination_least / C09_matrix_block_elimination_least is not proved (needs (A^T)* = (A*)^T); every run checks in Coq that multi_solve_model equals the dense solve_model of the assembled system (verdict 13 otherwise) and judges the implementation output with the dense oracles",
     "bool_series_exact_upto3 (bounded in-kernel check, n <= 3, in Proofs/SolveCarriers.v) is kept beside the unbounded C09_least_is_series_bool_exact",
-    "the generic theorems take the law records sr_ring/sr_ordered/sr_star of ereal, trop, bool as premises (proved under C08, Proofs/SemiringLaws.v); composing them is a one-line instantiation not done here",
     "tier B: PatternedTensor.solve's solution-axis iteration (terminates, covers the support) is not modelled; its output is judged densely",
 ]
 
